@@ -23,6 +23,7 @@ SplitMsh(t, Guarded) ==
   ELSE LET fields == SplitOn(FirstLine(t), t[4])
            seps == fields[2]
        IN IF ~Distinct(seps) THEN "InvalidEncodingChars"
+          ELSE IF \E i \in 1..Len(seps) : IsSpace(seps[i]) THEN "InvalidEncodingChars"   \* (commit 2088a40)
           ELSE IF Len(seps) = 4 THEN "ok"
           ELSE IF Len(seps) < 4 THEN "InvalidEncodingChars"
           ELSE IF Len(seps) = 5
